@@ -209,6 +209,7 @@ static Verdict enumerate(int tier, int shard, int nshards, Fields *failing) {
       for (int i = 0; i < len; i++) { s += alpha[x % K]; x /= K; }
       for (int fl = 0; fl < 8; fl++) {
         // all 2x2 escape flags and all 2x4 unescape flags are covered by the 8 combinations below
+        { Fields c; c.set("text", s); c.seti("s2p", fl & 1); c.seti("nb", (fl >> 1) & 1); c.seti("p2s", (fl >> 2) & 1); c.seti("bc", fl % 4); note_case(c); }
         Verdict r = check_one(s, fl & 1, (fl >> 1) & 1, (fl >> 2) & 1, fl % 4);
         stats().evaluations++;
         if (r.kind == Verdict::FAIL) { failing->set("text", s); failing->seti("s2p", fl & 1); failing->seti("nb", (fl >> 1) & 1); failing->seti("p2s", (fl >> 2) & 1); failing->seti("bc", fl % 4); return r; }
